@@ -72,11 +72,59 @@ func (c *Check) duplicateLeafByEquality() {
 					if !ok {
 						continue
 					}
+					onTrue := d.Succs[0] == child || d.Succs[0].Dominates(b)
+					// the test written as a predicate helper: it must answer false whenever the
+					// two addresses do not compare equal, and compare them with == / != only
+					cnd, neg := iff.Cond, false
+					if un, isNot := cnd.(*ssa.UnOp); isNot && un.Op == token.NOT {
+						cnd, neg = un.X, true
+					}
+					if hc, isCall := cnd.(*ssa.Call); isCall {
+						if h := helperCallee(hc.Parent(), hc); h != nil && h.Signature.Results().Len() == 1 {
+							var cmps []*ssa.BinOp
+							badOp := ""
+							for _, hb := range h.Blocks {
+								for _, hi := range hb.Instrs {
+									if bo, ok := hi.(*ssa.BinOp); ok && (fromAddress(bo.X) || fromAddress(bo.Y)) {
+										switch bo.Op {
+										case token.EQL, token.NEQ:
+											if fromAddress(bo.X) && fromAddress(bo.Y) {
+												cmps = append(cmps, bo)
+											}
+										case token.LSS, token.LEQ, token.GTR, token.GEQ:
+											badOp = bo.Op.String()
+										}
+									}
+								}
+							}
+							if len(cmps) > 0 || badOp != "" {
+								verdict := boolResultUnder(h, func(cond ssa.Value) int {
+									for _, bo := range cmps {
+										if cond == ssa.Value(bo) {
+											if bo.Op == token.EQL {
+												return -1
+											}
+											return 1
+										}
+									}
+									return 0
+								})
+								switch {
+								case badOp != "":
+									other = "the predicate " + h.Name() + " compares the addresses with " + badOp
+								case verdict == -1 && onTrue != neg:
+									eq = true
+								default:
+									other = "the predicate " + h.Name() + " can hold although the two addresses do not compare equal"
+								}
+								continue
+							}
+						}
+					}
 					cmp, ok := iff.Cond.(*ssa.BinOp)
 					if !ok || !(fromAddress(cmp.X) || fromAddress(cmp.Y)) {
 						continue
 					}
-					onTrue := d.Succs[0] == child || d.Succs[0].Dominates(b)
 					switch {
 					case cmp.Op == token.EQL && onTrue, cmp.Op == token.NEQ && !onTrue:
 						if fromAddress(cmp.X) && fromAddress(cmp.Y) {
@@ -131,6 +179,7 @@ func (c *Check) heapHeaderAllocColumns() {
 		return
 	}
 	type env map[*ssa.Parameter]string
+	var idOfRec func(v ssa.Value, e env) string
 	idOf := func(v ssa.Value, e env) string {
 		switch x := v.(type) {
 		case *ssa.Parameter:
@@ -145,9 +194,22 @@ func (c *Check) heapHeaderAllocColumns() {
 					return fmt.Sprintf("h%d", k)
 				}
 			}
+			// a group copied into a field of a local struct (named captures)
+			if fa, ok := x.X.(*ssa.FieldAddr); ok && x.Op == token.MUL {
+				if al, ok := fa.X.(*ssa.Alloc); ok {
+					if vals, ok := fieldValues(&ssa.UnOp{Op: token.MUL, X: al}, fa.Field, 0); ok && len(vals) == 1 {
+						return idOfRec(vals[0], e)
+					}
+				}
+			}
+		case *ssa.Field:
+			if vals, ok := fieldValues(x.X, x.Field, 0); ok && len(vals) == 1 {
+				return idOfRec(vals[0], e)
+			}
 		}
 		return ""
 	}
+	idOfRec = idOf
 	for _, sc := range []struct {
 		name        string
 		alloc, used string
